@@ -1,6 +1,7 @@
 """C09 — clipped and subsetted datasets remain valid datasets with unchanged geometry."""
 from __future__ import annotations
 
+import copy
 import itertools
 import os
 
@@ -9,6 +10,7 @@ import numpy as np
 import xarray as xr
 
 from harness import util
+from harness.gen import c09_extra as X
 from harness.gen import clipgen as CG
 from harness.gen import datasets as G
 from harness.gen import geomspec as S
@@ -21,15 +23,21 @@ REQUIRED = ['Ems.C09.renumber_spec', 'Ems.C09.renumber_in_range', 'Ems.C09.renum
             'Ems.C09.update_connectivity_spec', 'Ems.C09.update_connectivity_shape', 'Ems.C09.refs_in_range',
             'Ems.C09.compress_get', 'Ems.C09.polygon_preserved', 'Ems.C09.select_variables_geometry',
             'Ems.C09.updated_row', 'Ems.C09.updated_entry', 'Ems.C09.newIndex_injective',
-            'Ems.C09.tables_agree_after_clip', 'Ems.C09.reference_followed']
+            'Ems.C09.tables_agree_after_clip', 'Ems.C09.reference_followed', 'Ems.C09.referencedBy_spec',
+            'Ems.C09.no_reference_lost']
 RULE = ('datasets of every convention with explicitly stored geometry (CF 1-D stored bounds, CF 2-D / SHOC simple stored '
         '4-corner bounds, SHOC standard node grids, UGRID meshes 0/1-based x NaN / _FillValue attribute / no fill x normal / '
         'transposed x every subset of edge_node / face_edge / edge_face / face_face), coordinates as xarray coordinates or plain '
-        'variables x clip geometries x buffer 0..2. Checked on the clipped dataset: same convention detected, saved with '
+        'variables x clip geometries (boxes, lines, points, cells, and selections built from a chosen set of cells: random '
+        'subsets, everything but a connected blob, two cells, every other cell — concave, with holes, in several pieces) x '
+        'buffer 0..2 x history of the mask object (applied once; applied twice; applied, then applied to a second dataset of '
+        'the same geometry; applied, saved, reopened, applied). For meshes the surviving nodes / edges are the corners / sides '
+        'of the kept faces (model `referencedBy`, generator tables), compared with the mask and with the sizes of the result. '
+        'Checked on the clipped dataset: same convention detected, saved with '
         'ems.to_netcdf and reopened as the same convention, polygon of every selected cell unchanged and no new polygon, every '
         'connectivity table present, equal to the model\'s update_connectivity of the generator\'s tables, mutually consistent, '
         'start_index and integer type kept. select_variables over subsets of data variables: identical polygons. '
-        'Non-trivial: some but not all cells kept; distinct by (recipe, geometry, buffer).')
+        'Non-trivial: some but not all cells kept; distinct by (recipe, geometry, buffer, history).')
 TRUSTED = ['netCDF4 / xarray save and reopen (runtime, compared not modelled)', 'the clip mask (C07) is taken as given']
 ASSUMPTIONS = ['"can be saved and reopened as such" is runtime behaviour checked by the correspondence only']
 
@@ -60,7 +68,7 @@ def table_rows(ds, name, primary_dim) -> list:
     return out
 
 
-def check_tables_consistent(ctx, desc, tabs) -> None:
+def check_tables_consistent(ctx, desc, tabs, edge_set_known_wrong=False) -> None:
     fn = tabs['face_node']
     faces = [[n for n in row if n is not None] for row in fn]
     pairs = [[frozenset((f[k], f[(k + 1) % len(f)])) for k in range(len(f))] for f in faces]
@@ -82,6 +90,21 @@ def check_tables_consistent(ctx, desc, tabs) -> None:
                 if {v for v in row if v is not None} != want:
                     ctx.oracle_fail('clipped-edge-face-inconsistent', desc, f'edge {e}: faces {row}, containing faces {sorted(want)}')
                     return
+    elif 'edge_face' in tabs and not edge_set_known_wrong:
+        # no edge_node table to say which side an edge is: every face must still be named by as many edges as it has
+        # sides, no edge may be without a face, and the two faces of an edge must share a side
+        ef = [[v for v in row if v is not None] for row in tabs['edge_face']]
+        for f, ps in enumerate(pairs):
+            n = sum(1 for row in ef if f in row)
+            if n != len(set(ps)):
+                ctx.oracle_fail('clipped-edge-face-inconsistent', desc, f'face {f} has {len(set(ps))} sides, {n} edges name it')
+                return
+        for e, row in enumerate(ef):
+            ok = len(row) == 1 and 0 <= row[0] < len(pairs) or \
+                len(row) == 2 and all(0 <= v < len(pairs) for v in row) and row[0] != row[1] and set(pairs[row[0]]) & set(pairs[row[1]])
+            if not ok:
+                ctx.oracle_fail('clipped-edge-face-inconsistent', desc, f'edge {e}: faces {tabs["edge_face"][e]} do not share a side')
+                return
     if 'face_face' in tabs:
         for f, row in enumerate(tabs['face_face']):
             want = {g for g, ps in enumerate(pairs) if g != f and set(ps) & set(pairs[f])}
@@ -90,32 +113,77 @@ def check_tables_consistent(ctx, desc, tabs) -> None:
                 return
 
 
-def check_case(ctx, recipe, built, c, geom_kind, geom, buffer, items) -> None:
+HISTORIES = ['once', 'once', 'once', 'twice', 'twice', 'twice-second', 'saved-after-use']      # meshes: the mask holds index tables
+HISTORIES_GRID = ['once'] * 5 + ['twice', 'twice-second', 'saved-after-use']                   # grids: boolean masks
+
+
+def bitstr(keep) -> str:
+    return ''.join('1' if b else '0' for b in keep)
+
+
+def apply_history(c, mask, history, recipe):
+    """the result of clipping after a history of uses of ONE mask object: applied once; applied a second time to the
+    same dataset; applied to a dataset, then to a second dataset with the same geometry (other file of the same model
+    run); applied once, then saved, reopened and applied.  Every one of them is "the result of clipping"."""
+    if history == 'once':
+        return do_clip(c, mask)
+    with CG.WorkDir() as wd:      # the first use: applied (the per-variable files are written), the result not needed
+        c.apply_clip_mask(mask, wd).close()
+    if history == 'twice':
+        return do_clip(c, mask)
+    if history == 'twice-second':
+        r2 = copy.deepcopy(recipe)
+        for v in r2.get('vars', []):
+            v['base'] = v['base'] + 7
+        return do_clip(c, mask, second=G.bind(G.build(r2)))
+    with CG.WorkDir() as wd:
+        p = os.path.join(wd, 'mask.nc')
+        mask.to_netcdf(p)
+        with xr.open_dataset(p) as m2:
+            mask2 = m2.load()
+    return do_clip(c, mask2)
+
+
+def check_case(ctx, recipe, built, c, geom_kind, geom, buffer, items, history='once') -> None:
     import emsarray
-    desc = {'recipe': recipe, 'geometry': geom.wkt, 'buffer': buffer}
+    desc = {'recipe': recipe, 'geometry': geom.wkt, 'buffer': buffer, 'history': history}
     conv = built.conv
     mesh = conv == 'ugrid'
-    mask = c.make_clip_mask(geom, buffer=buffer)
+    try:
+        mask = c.make_clip_mask(geom, buffer=buffer)
+    except Exception as e:
+        ctx.oracle_fail('make-clip-mask-raised', desc, f'{type(e).__name__}: {str(e)[:200]}')
+        return
+    # what the mask says is read BEFORE it is used (a copy: nothing below may depend on what using it did to it)
     if mesh:
-        keepF = ~np.isnan(mask['new_face_index'].values)
+        keepF = ~np.isnan(np.array(mask['new_face_index'].values, dtype='f8'))
+        keepN_mask = ~np.isnan(np.array(mask['new_node_index'].values, dtype='f8'))
+        keepE_mask = ~np.isnan(np.array(mask['new_edge_index'].values, dtype='f8')) if 'new_edge_index' in mask else None
         if not keepF.any():
             return
     else:
         if not all(bool(m.values.any()) for m in mask.data_vars.values()):
             return
+        cm = mask['cell_mask'] if 'cell_mask' in mask else mask['face_mask']
+        m = np.array(cm.values, dtype=bool)
     try:
-        out = do_clip(c, mask)
+        out = apply_history(c, mask, history, recipe)
     except Exception as e:
-        ctx.oracle_fail('clip-raised', desc, f'{type(e).__name__}: {str(e)[:200]}')
+        ctx.oracle_fail('clip-raised', desc, f'[{history}] {type(e).__name__}: {str(e)[:200]}')
         return
     raw = built.polys
     vbits = S.geos_valid_bits(raw)
     kept = [q if (q is not None and vbits[n] == '1') else None for n, q in enumerate(raw)]
     ctx.count(f'{conv}:{geom_kind}:b{buffer}')
+    ctx.count(f'history:{history}')
     # ---- same convention, directly and after a save / reopen --------------------------------
     cls = emsarray.conventions.get_dataset_convention(out)
     if cls is not built.conv_class:
         ctx.oracle_fail('clipped-convention-changed', desc, f'clipped dataset detected as {cls}, was {built.conv_class.__name__}')
+        return
+    if mesh and out.sizes.get(built.extra['names']['face_dim']) != int(keepF.sum()):
+        ctx.oracle_fail('clipped-face-count', desc,
+                        f"[{history}] {out.sizes.get(built.extra['names']['face_dim'])} faces in the clipped dataset, {int(keepF.sum())} selected")
         return
     with CG.WorkDir() as wd:
         p = os.path.join(wd, 'clipped.nc')
@@ -151,8 +219,6 @@ def check_case(ctx, recipe, built, c, geom_kind, geom, buffer, items) -> None:
     if mesh:
         old_of_new = [int(i) for i in np.flatnonzero(keepF)]
     else:
-        cm = mask['cell_mask'] if 'cell_mask' in mask else mask['face_mask']
-        m = np.asarray(cm.values)
         js = np.flatnonzero(m.any(axis=1))
         is_ = np.flatnonzero(m.any(axis=0))
         old_of_new = [j * m.shape[1] + i for j in range(js[0], js[-1] + 1) for i in range(is_[0], is_[-1] + 1)]
@@ -173,15 +239,63 @@ def check_case(ctx, recipe, built, c, geom_kind, geom, buffer, items) -> None:
                 if is_sel and q is not None and p is None:
                     ctx.oracle_fail('clipped-polygon-lost', {**desc, 'cell': old}, f'selected cell {old} lost its polygon in the {label} dataset')
                     return
-        ctx.nontrivial((str(recipe), geom.wkt, buffer))
+        ctx.nontrivial((str(recipe), geom.wkt, buffer, history))
     # ---- mesh connectivity -------------------------------------------------------------------------
     if mesh:
         names = built.extra['names']
-        keepN = ~np.isnan(mask['new_node_index'].values)
-        keepE = ~np.isnan(mask['new_edge_index'].values) if 'new_edge_index' in mask else None
-        bits = {'face': ''.join('1' if b else '0' for b in keepF), 'node': ''.join('1' if b else '0' for b in keepN)}
+        faces = [list(f) for f in recipe['faces']]
+        face_edges = built.extra['face_edges']
+        nnode, nedge = len(recipe['nodes']), len(built.extra['edges'])
+        # ---- which nodes / edges survive: stated from the generator's tables and the kept faces alone -----------
+        # a node survives iff it is a corner of a kept face, an edge iff it is a side of a kept face
+        keepN = np.zeros(nnode, dtype=bool)
+        keepE_truth = np.zeros(nedge, dtype=bool)
+        for f in np.flatnonzero(keepF):
+            keepN[faces[f]] = True
+            keepE_truth[face_edges[f]] = True
+        sides = {frozenset((a, b)) for f in np.flatnonzero(keepF) for a, b in zip(faces[f], faces[f][1:] + faces[f][:1])}
+        has_edge_dim = names['edge_dim'] in built.ds.dims
+        # the stored edge tables define the numbering of the edges; without any, emsarray numbers them itself and
+        # only the number of surviving edges can be stated
+        edges_numbered = bool(set(recipe['enc'].get('tables', [])) & {'edge_node', 'face_edge', 'edge_face'}) \
+            and not recipe['enc'].get('edge_tables_as_coords')
+        width = built.extra['maxn']
+        fn_rows = [list(r) + [None] * (width - len(r)) for r in faces]
+        fe_rows = [list(r) + [None] * (width - len(r)) for r in face_edges]
+        line = f"survivors {rows_str(fn_rows)} {bitstr(keepF)} {nnode}"
+        items.append((line, bitstr(keepN_mask), {**desc, 'op': line, 'table': 'nodes'}))
+        if keepN_mask.shape != keepN.shape or (keepN_mask != keepN).any():
+            ctx.oracle_fail('clip-keeps-wrong-nodes', desc,
+                            f'nodes kept {bitstr(keepN_mask)}, corners of the kept faces {bitstr(keepN)}')
+        keepE = None
+        edge_set_known_wrong = False
+        if keepE_mask is not None:
+            if edges_numbered:
+                keepE = keepE_truth
+                line = f"survivors {rows_str(fe_rows)} {bitstr(keepF)} {nedge}"
+                items.append((line, bitstr(keepE_mask), {**desc, 'op': line, 'table': 'edges'}))
+                if keepE_mask.shape != keepE.shape or (keepE_mask != keepE).any():
+                    # when edge_face is the only stored edge table, "edge e" is defined by its row there (the edge
+                    # between those faces): it survives iff one of the faces of its row is kept — the same set
+                    by_edge_face_only = not set(recipe['enc'].get('tables', [])) & {'edge_node', 'face_edge'}
+                    edge_set_known_wrong = True
+                    ctx.oracle_fail('clip-ignores-edge-face-numbering' if by_edge_face_only else 'clip-keeps-wrong-edges', desc,
+                                    f'edges kept {bitstr(keepE_mask)}, sides of the kept faces {bitstr(keepE)}')
+            else:
+                keepE = keepE_mask
+                if int(keepE_mask.sum()) != len(sides):
+                    ctx.oracle_fail('clip-keeps-wrong-edges', desc,
+                                    f'{int(keepE_mask.sum())} edges kept, the kept faces have {len(sides)} distinct sides')
+        # the element counts of the clipped dataset
+        if out.sizes.get(names['node_dim']) != int(keepN.sum()):
+            ctx.oracle_fail('clipped-node-count', desc,
+                            f"{out.sizes.get(names['node_dim'])} nodes, the kept faces have {int(keepN.sum())} distinct corners")
+        if has_edge_dim and out.sizes.get(names['edge_dim']) != len(sides):
+            ctx.oracle_fail('clipped-edge-count', desc,
+                            f"edge dimension of size {out.sizes.get(names['edge_dim'])}, the kept faces have {len(sides)} distinct sides")
+        bits = {'face': bitstr(keepF), 'node': bitstr(keepN)}
         if keepE is not None:
-            bits['edge'] = ''.join('1' if b else '0' for b in keepE)
+            bits['edge'] = bitstr(keepE)
 
         def renum(keep):
             out_, k = [], 0
@@ -198,7 +312,6 @@ def check_case(ctx, recipe, built, c, geom_kind, geom, buffer, items) -> None:
                 'face_edge': ('face', 'edge', names['face_dim']), 'edge_face': ('edge', 'face', names['edge_dim']),
                 'face_face': ('face', 'face', names['face_dim'])}
         present = ['face_node'] + [t for t in recipe['enc'].get('tables', [])]
-        width = built.extra['maxn']
         tabs = {}
         for key in present:
             vn = TABLES[key]
@@ -226,7 +339,7 @@ def check_case(ctx, recipe, built, c, geom_kind, geom, buffer, items) -> None:
                     ctx.oracle_fail('clipped-integer-type-changed', {**desc, 'table': key},
                                     f'{vn}: saved as {kind}{size}, was {built.ds[vn].dtype}')
         if 'face_node' in tabs:
-            check_tables_consistent(ctx, desc, tabs)
+            check_tables_consistent(ctx, desc, tabs, edge_set_known_wrong)
 
 
 def check_select_variables(ctx, recipe, built, c) -> None:
@@ -280,7 +393,7 @@ def make_recipe(ctx, k):
     return G.attach_vars(rng, recipe, n_vars=2, max_extra=1, dtypes=('f8', 'f4', 'i4', 'i8'))
 
 
-def examine(ctx, recipe, items) -> None:
+def examine(ctx, recipe, items, n_random=2, n_selection=1) -> None:
     rng = ctx.rng
     built = G.build(recipe)
     c = G.bind(built)
@@ -289,11 +402,18 @@ def examine(ctx, recipe, items) -> None:
     kept = [q if (q is not None and vbits[n] == '1') else None for n, q in enumerate(raw)]
     if not any(q is not None for q in kept):
         return
-    for _ in range(2):
+    cases = []
+    for _ in range(n_random):
         gk, geom = CG.random_geometry(rng, kept)
-        buffer = rng.choice([0, 0, 1, 2])
-        ctx.guarded(lambda: check_case(ctx, recipe, built, c, gk, geom, buffer, items),
-                    {'recipe': recipe, 'geometry': geom.wkt, 'buffer': buffer})
+        cases.append((gk, geom, rng.choice([0, 0, 1, 2])))
+    # selections that are not one convex patch: concave, with a hole, in several pieces (gen/c09_extra.py)
+    for _ in range(n_selection):
+        gk, geom = X.selection_geometry(rng, kept)
+        cases.append((gk, geom, rng.choice([0, 0, 0, 1])))
+    for gk, geom, buffer in cases:
+        history = rng.choice(HISTORIES if built.conv == 'ugrid' else HISTORIES_GRID)
+        ctx.guarded(lambda: check_case(ctx, recipe, built, c, gk, geom, buffer, items, history),
+                    {'recipe': recipe, 'geometry': geom.wkt, 'buffer': buffer, 'history': history})
     if rng.random() < 0.5:
         ctx.guarded(lambda: check_select_variables(ctx, recipe, built, c), {'recipe': recipe})
 
@@ -313,6 +433,13 @@ def run(ctx) -> None:
         recipe['vary'] = {'via_file': True}
         recipe = G.attach_vars(rng, recipe, n_vars=2, max_extra=1, dtypes=('f8', 'f4', 'i4'))
         ctx.guarded(lambda: examine(ctx, recipe, items), {'recipe': recipe})
+    # larger meshes x every set of optional tables in turn, clipped to selections that are concave / have holes / are
+    # in several pieces: which nodes and edges survive is then not "everything inside a box"
+    for k in range(ctx.budget(30, 150)):
+        recipe = G.random_recipe(rng, 'ugrid', ctx.tier, max_w=5, max_h=3, coords_as='vars', tables=G.tables_for(k),
+                                 vary=True)
+        recipe = G.attach_vars(rng, recipe, n_vars=2, max_extra=1, dtypes=('f8', 'i4'))
+        ctx.guarded(lambda: examine(ctx, recipe, items, n_random=0, n_selection=4), {'recipe': recipe})
     if ctx.searching and ctx.driver is None:
         ctx.evaluated(len(items))
         return
@@ -330,7 +457,8 @@ def run_one(ctx, inp):
         items: list = []
         sub = type(ctx)(ctx.prop, ctx.tier, ctx.seed)
         sub.known = []
-        check_case(sub, inp['recipe'], built, c, 'replay', shapely.from_wkt(inp['geometry']), inp.get('buffer', 0), items)
+        check_case(sub, inp['recipe'], built, c, 'replay', shapely.from_wkt(inp['geometry']), inp.get('buffer', 0), items,
+                   inp.get('history', 'once'))
         for line, impl, d in items:
             if line == inp.get('op'):
                 out['impl'] = impl
